@@ -49,6 +49,11 @@ func runC20(c *Ctx) {
 	c.Rule("R20a", "order-insensitive map iteration: every range over a map only writes maps, accumulates commutatively, collects into a slice sorted before it escapes, or exits with element-independent values (listed exceptions carry a reason)", 30)
 	c.Rule("R20b", "no shared planning state: functions reachable from the planners, differs, marshalers, formatters and Checksum write no package-level variable; PlanChanges allocates its state per call and stores nothing into its receiver", 5)
 
+	c.Rule("R20c", "sibling agreement: every implementation of migrate.Dir.Files orders the files by name (sort comparator over file names / Name()), the unique key of a directory entry: a coarser key (version, description) leaves files with equal keys in map/listing order", 3)
+	checkFilesOrdering(c)
+	c.Rule("R20d", "planning does not mutate its input: the shared planning helpers (detachReferences, DetachCycles, SortChanges, dependencies) never store into a field of a schema object through a pointer (they work on struct copies); planning the same change set twice must see the same objects", 2)
+	checkPlanningPurity(c)
+
 	sites := collectMapRanges(c)
 	for _, s := range sites {
 		if reason, ok := mapRangeExceptions[s.key]; ok {
@@ -419,5 +424,98 @@ func checkNoSharedState(c *Ctx) {
 			}
 		}
 		c.Check("R20b", shortPkg(pp)+".PlanChanges|fresh state per call, receiver not mutated", fi.Decl.Pos(), fresh && !storesRecv, "PlanChanges must allocate a new planning state for every call and must not store into its receiver (fresh=%v storesReceiver=%v)", fresh, storesRecv)
+	}
+}
+
+func checkFilesOrdering(c *Ctx) {
+	dir := c.dirIface()
+	n := 0
+	c.AllFuncs(false, func(fi *FuncInfo) {
+		if fi.Decl.Name.Name != "Files" || fi.Decl.Recv == nil {
+			return
+		}
+		info := fi.Info()
+		if !implementsDir(info.TypeOf(fi.Decl.Recv.List[0].Type), dir) {
+			return
+		}
+		// sort calls in the body
+		ast.Inspect(fi.Decl.Body, func(m ast.Node) bool {
+			call, ok := m.(*ast.CallExpr)
+			if !ok {
+				return true
+			}
+			fn := calleeOf(info, call)
+			if fn == nil || fn.Pkg() == nil {
+				return true
+			}
+			switch fn.Pkg().Path() + "." + fn.Name() {
+			case "sort.Strings", "slices.Sort":
+				n++
+				c.Check("R20c", fi.Name+"|orders by name", call.Pos(), true, "")
+			case "sort.Slice", "sort.SliceStable", "slices.SortFunc":
+				n++
+				fl, ok := call.Args[len(call.Args)-1].(*ast.FuncLit)
+				byName := false
+				if ok {
+					ast.Inspect(fl.Body, func(k ast.Node) bool {
+						be, ok := k.(*ast.BinaryExpr)
+						if !ok || (be.Op != token.LSS && be.Op != token.GTR) {
+							return true
+						}
+						isName := func(e ast.Expr) bool {
+							if ic, ok := e.(*ast.CallExpr); ok {
+								if se, ok := ic.Fun.(*ast.SelectorExpr); ok && se.Sel.Name == "Name" {
+									return true
+								}
+							}
+							// plain string elements of a slice of names
+							if ix, ok := e.(*ast.IndexExpr); ok {
+								if t := info.TypeOf(ix); t != nil {
+									if b, ok := t.Underlying().(*types.Basic); ok && b.Info()&types.IsString != 0 {
+										return true
+									}
+								}
+							}
+							return false
+						}
+						if isName(be.X) && isName(be.Y) {
+							byName = true
+						}
+						return true
+					})
+				}
+				c.Check("R20c", fi.Name+"|orders by name", call.Pos(), byName, "%s sorts the directory listing with a comparator that does not compare file names: files with equal keys keep the (random) order of the underlying map / listing, so the same directory hashes differently from run to run and differs from the other Dir implementations", fi.Name)
+			}
+			return true
+		})
+	})
+	if n == 0 {
+		c.Unresolved("R20c", "sort calls in Dir.Files implementations")
+	}
+}
+
+func checkPlanningPurity(c *Ctx) {
+	for _, name := range []string{"detachReferences", "DetachCycles", "SortChanges", "dependencies", "sortMap"} {
+		fi := c.Func("R20d", pSqlx, "", name)
+		if fi == nil {
+			continue
+		}
+		info := fi.Info()
+		bad := ""
+		for _, l := range writesIn(fi.Decl.Body) {
+			se, ok := l.(*ast.SelectorExpr)
+			if !ok {
+				continue
+			}
+			bt := info.TypeOf(se.X)
+			pt, isPtr := bt.(*types.Pointer)
+			if !isPtr {
+				continue // field of a local struct copy
+			}
+			if n := namedOf(pt); n != nil && n.Obj().Pkg() != nil && n.Obj().Pkg().Path() == pSchema {
+				bad = types.ExprString(l) + " at " + c.pos(l.Pos())
+			}
+		}
+		c.Check("R20d", "sqlx."+name+"|no store into schema objects through pointers", fi.Decl.Pos(), bad == "", "%s stores into %s: the caller's schema objects are modified by planning, so planning the same change set again (schema apply plans twice) gives a different result", name, bad)
 	}
 }
